@@ -426,6 +426,13 @@ func genC03(r *Rng, e *Emitter, n int) {
 		e.tally("type=" + t.kind)
 		e.tally(fmt.Sprintf("layout=%d", int(l)))
 		g := t.build()
+		if r.chance(1, 8) {
+			// the same geometry as a stream whose members each have a byte order of their own
+			if mb, ok := r.mixedEndianEncoding(c, g, bo); ok {
+				e.tally("mixed-endian-members")
+				c04Run(e, c, [4]int{0, -1, -1, -1}, mb)
+			}
+		}
 		switch k := r.Intn(10); {
 		case k < 6: // round trip through a reader that splits the bytes arbitrarily
 			sizes := []int{1 + r.Intn(9)}
